@@ -80,6 +80,9 @@ CORPUS = [
     dict(tree=('powr', ('div', ('mul', ('c', 2.5), ('powr', _X, 2.5)), ('powi', ('powr', _X, 1.5), -1)), 2.5),
          x=[0.03865725934795732], method='forward', n=3, order=8,
          step=dict(kind='scalar', value=0.016036668349966334)),       # rule-order-lost-in-ill-conditioned-moment-system
+    dict(tree=('fn', 'sqrt', ('add', ('sub', ('add', ('c', -4.0), _X), ('mul', _X, ('c', 1.3851))), ('fn', 'tanh', ('powi', _X, 5)))),
+         x=[-33.7085423838625], method='multicomplex', n=1, order=1, out_form='zero_d',
+         step=dict(kind='min', opts=dict(base_step=5.011368396173935e-05, step_ratio=4.0))),    # bicomplex-quotient-overflow
 ]
 
 
@@ -177,6 +180,13 @@ def run_case(case, ctx):
                     cond2, _T, singular = moment_system(method, n, order, hs[0] / hs[1])
             except Exception:
                 pass
+            qo = False
+            if method == 'multicomplex' and not np.isfinite(v):
+                try:
+                    from vf.props.c12 import quotient_overflow
+                    qo = bool(quotient_overflow(tree, x_e))
+                except Exception:
+                    qo = False
             ctx.reject('outside_accuracy_envelope', observed=complex(v), expected=complex(m.exact),
                        detail=dict(program=prog, x=x_e, err=m.err, E=m.E, S=m.S, ratio=ratio, A=t, W=m.W, nsteps=m.nsteps,
                                    rho_valid=m.rho_valid, est=est_e, final_step=fs_e, P=m.P, lam=m.lam,
@@ -188,6 +198,7 @@ def run_case(case, ctx):
                        error_explained_by_rounding_at_chosen_step=bool(floor > 0 and m.err <= 10 * floor),
                        majority_of_table_rows_collapsed=bool(m.frac_collapsed >= 0.5),
                        fraction_of_table_rows_collapsed=round(m.frac_collapsed, 3),
+                       tanh_family_argument_beyond_700=bool(qo),
                        moment_system_numerically_singular=bool(singular),
                        within_envelope_of_the_plain_formula=bool(m.err <= t * m.E_low))
             return
@@ -200,6 +211,8 @@ def classify(wit):
     f = wit.get('facts') or {}
     if wit.get('check') != 'outside_accuracy_envelope':
         return None
+    if f.get('method') == 'multicomplex' and f.get('result_is_nan') and f.get('tanh_family_argument_beyond_700'):
+        return 'bicomplex-quotient-overflow'
     if f.get('method') == 'multicomplex' and set(f.get('operators') or []) & SENSITIVE:
         return 'multicomplex-log-formula-cancellation'
     if f.get('chosen_step_beyond_validity_radius'):
